@@ -24,6 +24,13 @@ if r.returncode:
     sys.exit("patch does not apply: " + r.stderr)
 env = dict(os.environ, VERIF_REPO=WT)
 rc_all = {}
+# evidence/ and lean/Generated/ are rewritten by a run against the mutated worktree: save and restore them
+import glob, shutil, tempfile
+SAVE = tempfile.mkdtemp(prefix="try_seeded_", dir="/var/tmp")
+saved = glob.glob("/verif/evidence/*.json") + glob.glob("/verif/lean/Generated/*.lean")
+for f in saved:
+    os.makedirs(os.path.dirname(SAVE + f), exist_ok=True)
+    shutil.copy2(f, SAVE + f)
 try:
     for p in props:
         r = subprocess.run(["/venv/bin/python", "harness/check.py", p, "--tier", tier], cwd="/verif", env=env,
@@ -37,8 +44,9 @@ try:
         rc_all[p] = r.returncode
 finally:
     subprocess.run(["git", "-C", WT, "checkout", "--", "."], check=True)
-    # bring Generated/*.lean back in sync with /repo
-    for p in props:
-        subprocess.run(["/venv/bin/python", "-c", "import sys; sys.path.insert(0,'/verif'); from harness import translate; translate.regenerate()"], cwd="/verif")
-        break
+    # bring evidence/ and Generated/*.lean back to what they were (in sync with /repo)
+    for f in saved:
+        if open(f, "rb").read() != open(SAVE + f, "rb").read():
+            shutil.copy2(SAVE + f, f)
+    shutil.rmtree(SAVE, ignore_errors=True)
 print("caught" if any(v == 1 for v in rc_all.values()) else "MISSED", rc_all)
